@@ -66,6 +66,7 @@ def pv_expr(e):
     if t == "filter": return ("filter", e[1], pv_expr(e[2]), [pv_expr(a) for a in e[3]])
     if t == "test": return ("test", e[1], pv_expr(e[2]), [pv_expr(a) for a in e[3]], e[4])
     if t == "call": return ("call", e[1], [pv_expr(a) for a in e[2]], [(k, pv_expr(v)) for k, v in e[3]])
+    if t == "map": return ("map", [(pv_expr(k), pv_expr(v)) for k, v in e[1]])
     raise ValueError(t)
 
 
@@ -119,7 +120,7 @@ def cv(v):
     if isinstance(v, int): return ("i", v)
     if isinstance(v, str): return ("s", v)
     if isinstance(v, list): return ("l", tuple(cv(x) for x in v))
-    if isinstance(v, dict): return ("m", tuple(sorted((k, cv(x)) for k, x in v.items())))
+    if isinstance(v, dict): return ("m", tuple(sorted((k, cv(x)) for k, x in v.items())))      # JSON object keys are strings
     return ("?", json.dumps(v))
 
 
@@ -136,6 +137,14 @@ def dec_value(a, i):
         for _ in range(n):
             v, i = dec_value(a, i); out.append(v)
         return ("l", tuple(out)), i
+    if t == 6:
+        n = a[i + 1]; i += 2; out = []
+        for _ in range(n):
+            k, i = dec_value(a, i); v, i = dec_value(a, i)
+            # serde_json prints every key as a string
+            ks = k[1] if k[0] == "s" else str(k[1]) if k[0] == "i" else ("true" if k[1] else "false") if k[0] == "b" else "null"
+            out.append((ks, v))
+        return ("m", tuple(sorted(out))), i
     return ("?", t), i + 1
 
 
@@ -169,7 +178,7 @@ def model_stream(line, N):
     simple = {5: "GetItem", 14: "Neg", 16: "Not", 20: "Emit", 22: "PushWith", 24: "PushDidNotIterate", 25: "PopFrame",
               26: "PopLoopFrame", 31: "PushAutoEscape", 32: "PopAutoEscape", 34: "EndCapture", 36: "DupTop",
               37: "DiscardTop", 38: "Swap", 40: "Return", 41: "IsUndefined", 43: "GetClosure"}
-    onearg = {10: "BuildKwargs", 12: "UnpackList", 21: "PushLoop", 23: "Iterate", 27: "Jump", 28: "JumpIfFalse",
+    onearg = {10: "BuildKwargs", 12: "UnpackList", 44: "BuildMap", 21: "PushLoop", 23: "Iterate", 27: "Jump", 28: "JumpIfFalse",
               29: "JumpIfFalseOrPop", 30: "JumpIfTrueOrPop"}
     for _ in range(n):
         op, k = line[i], line[i + 1]; a = line[i + 2:i + 2 + k]; i += 2 + k
@@ -178,7 +187,7 @@ def model_stream(line, N):
         elif op == 1: out.append(("EmitRaw", "".join(chr(c) for c in a)))
         elif op == 2: out.append(("StoreLocal", nm(a[0])))
         elif op == 3: out.append(("Lookup", nm(a[0])))
-        elif op == 4: out.append(("GetAttr", REV_ATTRS.get(a[0], "?attr")))
+        elif op == 4: out.append(("GetAttr", langenc.attr_name(a[0])))
         elif op == 6: out.append(("LoadConst", dec_value(a, 0)[0]))
         elif op == 7: out.append(("LoadConst", ("s", nm(a[0]))))
         elif op == 8:
@@ -416,6 +425,72 @@ def loop_and_rebinding_family():
     return out
 
 
+def map_family():
+    """Maps and unpacking assignment, construct by construct (the random generator covers their combinations):
+    literals (duplicate keys, int / bool / string keys: key identity is the map's ORDER, not ==), printing of
+    nested maps and lists (quotes, escapes, undefined / none / bool items), attribute and subscript access
+    (present / missing / on a missing key / undefined subject), `in`, iteration (keys in key order, loop.*,
+    else, filter, |items with an unpacking target), filters and tests applied to maps, truthiness, equality,
+    operators that refuse maps, auto-escaping of printed maps, maps through set-blocks and macro arguments,
+    unpacking set / with (swap, map keys, wrong length, non-sequences, in the with the later assignments see
+    the earlier ones).  Returns (body, ctx) pairs; every one is run under all four undefined modes."""
+    I = lambda n: ("int", n); S = lambda s: ("str", s); V = lambda x: ("var", x); B = lambda b: ("bool", b)
+    M = lambda *ps: ("map", list(ps))
+    E = lambda e: ("emit", e)
+    m = V("m")
+    progs = [
+        [E(M((I(1), S("i")), (B(True), S("b"))))],
+        [E(("cmp", M((S("a"), I(1))), [("==", M((S("a"), B(True))))])), E(("cmp", M((I(1), I(1))), [("==", M((B(True), I(1))))]))],
+        [E(("cmp", m, [(">", ("list", [I(1)]))])), E(("cmp", m, [("<", I(1))])), E(("cmp", m, [(">", S("a"))]))],
+        [E(("item", m, V("zz"))), E(("attr", m, "zz")), E(("item", m, I(0))), E(("item", M((I(1), I(2))), I(1))), E(("item", M((I(1), I(2))), B(True)))],
+        [E(("attr", ("attr", m, "zz"), "b"))],
+        [E(("attr", ("attr", m, "a"), "b"))],
+        [E(M((S("a"), S('q"x')), (S("b"), S("it's")), (S("c"), S("a\nb\t\r\\")), (S("d"), S("both'\"")), (S("e"), ("none",)),
+             (S("f"), B(True)), (S("g"), V("zz")), (S("h"), I(-3)), (S("i"), S("\x01\x7f"))))],
+        [E(("list", [I(1), S("a"), ("list", [I(2), S("b")]), M(), M((S("k"), ("list", [])))]))],
+        [E(M((S("b"), I(1)), (S("a"), I(2)), (I(1), I(3)), (S("b"), I(4))))],
+        [("for", "k", m, None, [E(V("k")), E(("attr", V("loop"), "index")), E(("attr", V("loop"), "length")), E(("attr", V("loop"), "last"))], [("raw", "E")], False)],
+        [("for", "k", V("e"), None, [E(V("k"))], [("raw", "E")], False)],
+        [("for", "k", ("attr", m, "zz"), None, [E(V("k"))], [("raw", "E")], False)],
+        [("for", "k", m, ("cmp", V("k"), [("!=", S("b"))]), [E(V("k")), E(("item", m, V("k"))), E(("attr", V("loop"), "revindex"))], None, False)],
+        [("for", ["a", "b"], ("list", [m]), None, [E(V("a"))], None, False)],
+        [("for", ["a", "b"], ("list", [M((S("x"), I(1)), (S("y"), I(2)))]), None, [E(V("a")), E(V("b"))], None, False)],
+        [("for", ["k", "v"], ("filter", "items", m, []), ("cmp", V("k"), [("!=", S("a"))]), [E(V("k")), E(V("v")), E(("attr", V("loop"), "revindex"))], None, False)],
+        [("set", ["a", "b"], S("xy"))], [("set", ["a", "b"], V("zz"))], [("set", ["a", "b"], ("list", [I(1)]))], [("set", ["a", "b"], ("list", [I(1), I(2), I(3)]))],
+        [("set", ["a", "b"], I(5))], [("set", ["a", "b"], ("none",))], [("set", ["a", "b"], M((S("x"), I(1)), (S("y"), I(2)))), E(V("a")), E(V("b"))],
+        [("set", "a", I(1)), ("set", "b", I(2)), ("set", ["a", "b"], ("list", [V("b"), V("a")])), E(V("a")), E(V("b"))],
+        [("set", "a", I(1)), ("set", "b", I(2)), ("with", [(["a", "b"], ("list", [V("b"), V("a")])), ("c", V("a"))], [E(V("a")), E(V("b")), E(V("c"))]), E(V("a")), E(V("b"))],
+        [("set", "a", I(1)), ("set", "b", I(1)), ("for", "i", ("call", "range", [I(6)], []), None,
+          [("set", ["a", "b"], ("list", [V("b"), ("bin", "+", V("a"), V("b"))])), E(V("a")), ("raw", " ")], None, False), E(V("b"))],
+        [("set", ["a", "a"], ("list", [I(1), I(2)])), E(V("a"))],
+        [("with", [(["a", "b"], ("list", [I(1)]))], [("raw", "x")])], [("with", [("c", I(1)), (["a", "b"], V("c"))], [("raw", "x")])],
+        [("macro", "f", ["p", "q"], [], [("set", ["p", "q"], ("list", [V("q"), V("p")])), E(V("p")), E(V("q"))]), E(("call", "f", [I(1), I(2)], [])), E(V("p"))],
+        [E(("filter", "first", m, []))], [E(("filter", "length", V("e"), []))], [E(("filter", "length", m, []))],
+        [E(("filter", "upper", m, []))], [E(("filter", "capitalize", m, []))], [E(("filter", "trim", m, []))], [E(("filter", "replace", m, [S("a"), S("b")]))],
+        [E(("filter", "format", S("%s-%s"), [m, ("list", [I(1)])]))], [E(("bin", "~", m, ("list", [S("x")])))],
+        [E(("filter", "safe", m, []))], [E(("filter", "escape", m, []))], [E(("filter", "default", m, [I(1)]))], [E(("filter", "string", m, []))],
+        [E(("filter", "join", ("list", [("filter", "safe", ("attr", m, "a"), []), ("attr", m, "a"), m]), [S(",")]))],
+        [E(("filter", "join", m, [S("<")]))], [E(("filter", "list", m, []))], [E(("filter", "list", V("e"), []))],
+        [E(("test", "mapping", m, [], False)), E(("test", "mapping", V("l"), [], False)), E(("test", "odd", m, [], False)), E(("test", "none", m, [], False)),
+         E(("test", "defined", ("attr", m, "zz"), [], False)), E(("test", "mapping", V("zz"), [], True))],
+        [E(("neg", m))], [E(("bin", "+", m, m))], [E(("filter", "abs", m, []))], [E(("call", "range", [m], []))], [E(("call", "m", [], []))],
+        [E(("filter", "items", V("l"), []))], [E(("filter", "items", V("zz"), []))],
+        [E(("item", V("l"), m)), E(("item", V("l"), S("a")))],
+        [E(("cmp", S("a"), [("in", m)])), E(("cmp", S("zz"), [("in", m)])), E(("cmp", I(1), [("notin", m)])), E(("cmp", m, [("in", m)]))],
+        [E(("cmp", V("zz"), [("in", m)]))], [E(("cmp", S("a"), [("in", ("attr", m, "zz"))]))],
+        [E(("cmp", m, [("in", ("list", [m]))])), E(("cmp", m, [("==", m)])), E(("cmp", V("e"), [("==", M())])), E(("cmp", V("e"), [("!=", m)]))],
+        [("if", [(m, [("raw", "T")])], [("raw", "F")]), ("if", [(V("e"), [("raw", "T")])], [("raw", "F")]), E(("not", m)), E(("and", V("e"), I(1))), E(("or", V("e"), I(1)))],
+        [E(("attr", m, "index")), E(("attr", M((S("index"), I(5))), "index")), E(("attr", M((S("length"), I(5))), "length"))],
+        [("autoescape", B(True), [E(m), E(("attr", m, "a")), E(("filter", "safe", m, [])), E(M((S("a"), ("filter", "safe", S("<b>"), [])))), E(("filter", "list", m, [])), E(("filter", "string", m, [])),
+                                  E(("attr", M((S("a"), ("filter", "safe", S("<b>"), []))), "a")), E(("filter", "join", m, [S("<")]))])],
+        [("setblock", "x", [E(m)], None), E(V("x")), E(("filter", "length", V("x"), []))],
+        [("macro", "f", ["p"], [("p", M((S("z"), I(1))))], [E(V("p")), E(("attr", V("p"), "z"))]), E(("call", "f", [], [])), E(("call", "f", [m], [])), E(("call", "f", [], [("p", V("e"))]))],
+        [("set", "q", M((S("k"), V("n")), (V("s"), I(2)))), E(V("q")), ("set", "n", I(99)), E(("attr", V("q"), "k"))],
+    ]
+    ctx = {"m": {"b": 1, "a": "x<y", "c": [1, "it's"]}, "e": {}, "l": [1, 2], "n": 7, "s": "k"}
+    return [(p, ctx) for p in progs]
+
+
 def _chars(s):
     return ("list", [("str", ch) for ch in s])
 
@@ -425,7 +500,9 @@ def equivalence_family(rng, n_random):
     equivalent INSIDE the fragment: the engine's rendering of the left template must be what the
     reference interpreter says about the right program (whose own rendering by the engine is compared as
     for every other program).  Returns (kind, left_source, right_body, ctx).
-      * unpacking set / with: the right-hand side is evaluated completely before any target is bound:
+      * unpacking set / with in the forms the Lang syntax does not have (a TUPLE right-hand side `a, b = b, a`,
+        three and nested targets; a two-name target with any other right-hand side IS in the syntax and is
+        compared directly): the right-hand side is evaluated completely before any target is bound:
         `{% set a, b = E1, E2 %}` = `{% set t1 = E1 %}{% set t2 = E2 %}{% set a = t1 %}{% set b = t2 %}`
       * a string iterates over its characters, with loop.* describing the position among them:
         `{% for c in S %}` = `{% for c in [c1, .., cn] %}`"""
@@ -540,9 +617,10 @@ def main():
     chk.cov["trusted_base"] = TRUSTED_COMMON + ["Print Assumptions of the C03 theorems: see coverage.theorems",
         "the reference interpreter Lang/Interp.v is the specification (written from the documented semantics); tools/langenc.py + Lang/Codec.v (AST encoding) and tools/proggen.py (source printer) are unverified glue; the parser is covered by rendering the printed source",
         "L2: coq/theories/L2/Compile.v and L2/Vm.v are hand-written mirrors of codegen.rs and eval_impl; Compile.v is tied to the code by comparing its stream with the real one on every generated program (this file: JSON -> canonical translation, the parser's view of the generated AST - negative literals, merged template data -, LocalId recomputed from the stream, order within Enclose runs ignored, none/undefined constants both `null` in the JSON); Vm.v by the three-way output agreement; the simulation theorems (compile_correct, compile_error) cover the whole Lang syntax"]
-    chk.assumptions = ["fragment: expressions (arithmetic, comparison chains, and/or/not, in, ~, if-expressions, lists, subscripts, loop.* attributes, filters length/upper/lower/trim/capitalize/string/abs/default, tests defined/undefined/odd/even, range), if/elif/else, for with else / filter / loop variable / break / continue, set, set-block (with filter), with, macros with defaults and keyword arguments, call blocks with caller(), filter blocks; ASCII strings; integers far from the i128 bounds",
+    chk.assumptions = ["fragment: expressions (arithmetic, comparison chains, and/or/not, in, ~, if-expressions, lists, MAP literals, subscripts and attributes of lists / maps / loop, filters length/upper/lower/trim/capitalize/string/abs/default/first/last/join/list/items/..., tests defined/undefined/odd/even/none/mapping, range), printing of nested lists and maps (Python-style repr), if/elif/else, for with else / filter / loop variable / break / continue over lists, strings and maps, set and with (also with a two-name unpacking target), set-block (with filter), macros with defaults and keyword arguments, call blocks with caller(), filter blocks; ASCII strings; integers far from the i128 bounds",
                        "bytecode level: forward simulation proved for the whole Lang syntax (expressions incl. calls, all statements incl. filtered loops, macros, call blocks), for successful runs (same final state) and for failing runs (same error kind; nothing about the output before the error); everything outside the Lang syntax: stream correspondence + three-way output agreement only",
-                       "unpacking set / with targets and loops over strings are outside the Lang syntax: the engine's rendering is compared with the reference interpreter's verdict on an element-wise equivalent program of the fragment (sequential sets through fresh temporaries; the loop over the list of the string's characters), ASCII strings"]
+                       "maps: ValueMap of the default build (BTreeMap: entries in key order; the harness is built without feature preserve_order), keys of the fragment are scalars (strings, ints, bools, none), context maps have string keys (JSON); `m|items` yields [key, value] LISTS in the model where the engine yields 2-tuples (same items; printed with parentheses, unequal to lists): the generators only unpack them; `|last` refuses maps in the engine (filters.rs::last accepts sequences and iterables only) although `|first` accepts them: modelled as found, not generated",
+                       "unpacking set / with with a two-name target are in the Lang syntax (any right-hand side); tuple right-hand sides, three or nested targets are outside it: the engine's rendering is compared with the reference interpreter's verdict on an element-wise equivalent program of the fragment (sequential sets through fresh temporaries)"]
     okm, blog = build_models("C03")
     proofs_ok = chk.run_proofs()
     okc, clog = cargo_build(["prog"], release=False)
@@ -580,6 +658,11 @@ def main():
         for body, ctx in lrf:
             progs.append((body, ctx, "lenient"))
         chk.cov["loop_and_rebinding_family_cases"] = len(lrf)
+        mf = map_family()
+        for body, ctx in mf:
+            for md in ("lenient", "strict", "semistrict", "chainable"):
+                progs.append((body, ctx, md))
+        chk.cov["map_family_cases"] = 4 * len(mf)
         # constructs outside the Lang syntax, through their element-wise equivalents inside it
         for kind, left, right, ctx in equivalence_family(chk.rng, 0):
             equiv.append((len(progs), kind, left))
@@ -696,7 +779,7 @@ def main():
     chk.cov["evaluations"] = 2 * len(progs) + extra_ctx_runs
     chk.cov["distinct_nontrivial"] = len(nontriv)
     chk.cov["programs"] = len(progs)
-    chk.cov["rule"] = ("typed random core-fragment programs (depth 2-4) x random contexts of ints/strings/bools/lists, the exhaustive closure/scoping family of tools/proggen.py::closure_family, the families of this file (sibling_family: macros of one scope sharing free names, one re-binds a name locally, the others are called afterwards, recursion + call blocks; loop_and_rebinding_family: `loop` in the filter / subject / else part of an inner loop, one name called while bound to different callables; equivalence_family: unpacking set / with and loops over strings through their element-wise equivalents inside the fragment), plus standalone expressions `{{ e }}` (depth 2-4, "
+    chk.cov["rule"] = ("typed random core-fragment programs (depth 2-4) x random contexts of ints/strings/bools/lists/maps, the map_family of this file under all four undefined modes, the exhaustive closure/scoping family of tools/proggen.py::closure_family, the families of this file (sibling_family: macros of one scope sharing free names, one re-binds a name locally, the others are called afterwards, recursion + call blocks; loop_and_rebinding_family: `loop` in the filter / subject / else part of an inner loop, one name called while bound to different callables; equivalence_family: unpacking set / with and loops over strings through their element-wise equivalents inside the fragment), plus standalone expressions `{{ e }}` (depth 2-4, "
                        "possibly undefined variables, all four undefined modes); each rendered by the engine (debug+release), by the extracted reference interpreter and by the "
                        "extracted model VM on the model compiler's stream; each program's real instruction stream compared with the model compiler's; "
                        "non-trivial = distinct (program, context, mode) rendering to non-empty output without error, programs with >= 3 statement nodes")
@@ -704,7 +787,7 @@ def main():
     chk.cov["distribution"] = {"outcomes": dict(hist), "constructs": dict(kinds), "sizes": dict(sizes), "real_opcodes": dict(opc)}
     chk.cov["engine_vs_interpreter_disagreements"] = len(bad)
     chk.cov["equivalence_family"] = {"cases": dict(eq_hist), "disagreements": len(eq_bad),
-                                     "rule": "engine(left template) = reference interpreter(element-wise equivalent inside the Lang syntax); unpacking set / with and loops over strings are tied to the reference semantics by this equivalence only"}
+                                     "rule": "engine(left template) = reference interpreter(element-wise equivalent inside the Lang syntax); tuple right-hand sides / three or nested targets of unpacking set / with are tied to the reference semantics by this equivalence only (two-name targets and loops over strings are also compared directly)"}
     chk.cov["kernel_crosscheck"] = {"cases": len(small) + len(small2), "agree": bool(kern_ok and kern2_ok)}
     chk.cov["l2"] = {"streams_compared": len(impl_dbg) - hist["not_compiled"], "instructions_compared": n_instr,
                      "stream_mismatch": len(mismatches), "stream_mismatch_harmless": len(harmless),
